@@ -531,6 +531,15 @@ class Engine:
         key = z.get_id()
         hit = self.implied.get(key)
         if hit is not None:
+            # answered from the cache, but the decision is still recorded / consumed: z3.simplify orders arguments by AST
+            # id, so WHICH calls hit the cache may differ between a run and its re-execution; the decision list must not
+            if self.pos < len(self.decisions):
+                d = self.decisions[self.pos]
+                if d != hit[0]:
+                    raise Unsupported('internal: recorded decision contradicts an implied condition (re-execution out of step)')
+            else:
+                self.decisions.append(hit[0])
+            self.pos += 1
             return hit[0]
         if self.pos < len(self.decisions):
             d = self.decisions[self.pos]
